@@ -152,6 +152,9 @@ func (c *recClient) Call(headers map[string]string, method string, url string, b
 
 var notifyCfg = config.WebhookConfig{MaxTries: 1000000}
 
+// WsSkipped counts behaviours whose real websocket subscriber could not be set up.
+var WsSkipped int
+
 // NotifyRig is the set of channels registered for one behaviour.
 type NotifyRig struct {
 	recs    map[string]*recorder
@@ -186,7 +189,10 @@ func (r *Replayer) attachNotify(variant int) *NotifyRig {
 	// real centrifuge client subscribed to the `headers` channel: what a subscriber RECEIVES, not what is handed to Publish
 	if os.Getenv("VERIF_WSREAL") == "1" && variant%3 == 0 {
 		if err := rig.attachRealWebsocket(s, mk("ws-subscriber")); err != nil {
-			rig.recs["ws-subscriber"].add(evRec{Op: "?websocket " + err.Error()})
+			// the subscription could not be set up (a busy machine): this behaviour runs without that channel - not an observation
+			delete(rig.recs, "ws-subscriber")
+			rig.order = rig.order[:len(rig.order)-1]
+			WsSkipped++
 		}
 	}
 	return rig
@@ -244,7 +250,10 @@ func (rig *NotifyRig) attachRealWebsocket(s *Stack, rec *recorder) error {
 	}
 	select {
 	case <-ready:
-	case <-time.After(5 * time.Second):
+	case <-time.After(30 * time.Second):
+		cl.Close()
+		srv.Close()
+		_ = ws.Shutdown()
 		return errors.New("subscription timeout")
 	}
 	s.Svc.Notifier.AddChannel(notification.NewWebsocketChannel(&s.log, ws.Publisher(), s.Cfg.Websocket))
